@@ -359,7 +359,9 @@ static void analyze(const Ctx *x, Ref *r) {
     if (has_tok(f, "S") || has_tok(f, "T")) {
         if (c->s_null) { nv++; code = ESNULLP_; }
         if (has_tok(f, "l") && c->s_huge >= 2) { nv++; code = ESLEMAX_; }
-        if (has_tok(f, "l") && has_tok(f, "bs") && c->s_bos && !c->s_null && c->slen * f->sunit > x->sbytes) { nv++; code = 0; }   /* which code is not uniform in the docs */
+        if (has_tok(f, "l") && has_tok(f, "bs") && c->s_bos && !c->s_null && c->slen * f->sunit > x->sbytes) {
+            if (!strcmp(f->name, "memccpy_s")) { r->verdict = V_ANY; return; }    /* n bounds the search for c: a source that ends with c may be shorter than n */
+            nv++; code = 0; }   /* which code is not uniform in the docs */
     }
     if (c->o_null) { nv++; code = ESNULLP_; }
     /* a zero-length request: which (if any) of the other constraints is still checked is not
@@ -694,14 +696,16 @@ void gen_generic(int fi) {
                 if (!src_str && term == 0) continue;          /* counted arrays have no terminator notion */
                 if (src_str && !term && !has_l && !has_bs) continue;   /* an unterminated source needs a declared length or a known object size */
                 for (int isl = 0; isl < nsl; isl++)
-                for (int sbos = 0; sbos <= (has_bs ? 1 : 0); sbos++) {
+                for (int sbos = 0; sbos <= (has_bs ? (has_l && src_str ? 2 : 1) : 0); sbos++) {      /* 2: a source array of slen elements, its size known, holding a shorter string and the remains of an older one behind it */
                     size_t slen = sl[isl];
-                    c.s_len = L; c.s_term = term; c.slen = slen; c.s_bos = sbos; c.s_k = 0;
+                    c.s_len = L; c.s_term = term; c.slen = slen; c.s_bos = sbos ? 1 : 0; c.s_k = 0;
+                    if (sbos == 2 && !(term && slen > (size_t)L + 1)) continue;
                     if (src_str && !term && !has_l) { if (!sbos || L == 0) continue; c.s_obj = L; }   /* known-size unterminated source */
                     else if (src_str) {
                         if (term) c.s_obj = has_l ? (long)((size_t)(L + 1) < slen ? (size_t)(L + 1) : slen) : L + 1;
                         else { if ((size_t)L != slen) continue; c.s_obj = L ? L : 1; }   /* unterminated: exactly fills slen */
                         if (has_l && term && slen == 0) c.s_obj = 1;   /* zero-length request: first element readable (DESIGN 4) */
+                        if (sbos == 2) c.s_obj = slen;
                     } else {
                         if (L != 0) continue;                 /* counted array: length is slen itself */
                         c.s_obj = slen ? slen : 1; c.s_len = slen; c.s_term = 0;
@@ -739,7 +743,7 @@ void gen_generic(int fi) {
         for (int dbos = 0; dbos <= (has_bd ? 4 : 0); dbos++)      /* 1: known = declared, 2: known but smaller than declared, 3: known and larger than declared (dest is the head of a bigger object), 4: known and empty (dest points at the end of an object) */
         for (int isn = 0; isn <= (has_src ? 1 : 0); isn++)
         for (int isl = 0; isl < nslv; isl++)
-        for (int sbos = 0; sbos <= (has_bs ? 1 : 0); sbos++)
+        for (int sbos = 0; sbos <= (has_bs ? (has_l ? 2 : 1) : 0); sbos++)      /* 2: the source object's size is known and smaller than the declared slen */
         for (int ion = 0; ion <= (has_o ? 1 : 0); ion++)
         for (int al = 0; al <= (has_src ? ((f->flags & F_OV) ? 2 : 1) : 0); al++)   /* 1: src is dest itself, 2: src is dest + one element (partial overlap) */
         for (int pk = 0; pk < 2; pk++) {
@@ -747,7 +751,7 @@ void gen_generic(int fi) {
             memset(&c, 0, sizeof c);
             c.fn = fi; c.place = place; c.d_null = dnull_v[idn];
             c.dmax = dmv[idm].dmax; c.d_huge = dmv[idm].huge; c.d_bos = dbos == 3 ? 1 : dbos == 4 ? 2 : dbos;
-            if (!c.d_null && c.dmax && !c.d_huge && dbos != 2 && dbos != 4 && !isn && !slv[isl].huge && !ion && !al) {
+            if (!c.d_null && c.dmax && !c.d_huge && dbos != 2 && dbos != 4 && !isn && !slv[isl].huge && !ion && !al && sbos != 2) {
                 if (has_k && !has_src && pk == 0) {      /* everything valid except the element count: the limit + 1, and values whose product with the element size wraps */
                     const size_t kv[] = { fn_limit(f) + 1, (size_t)-1 / f->w + 1, (size_t)-1 / f->w + 4, (size_t)-1 / 2 + 1, (size_t)-1 };
                     c.d_obj = dbos == 3 ? c.dmax + 3 * f->w / f->dunit + (f->w < f->dunit) : c.dmax; c.d_pk = 0; c.c = 'a';
@@ -772,13 +776,15 @@ void gen_generic(int fi) {
             long nel = c.d_obj * f->dunit / f->w;
             c.d_pk = pk; c.d_pl = pk ? (nel > 1 ? 1 : 0) : 0;
             if (pk && nel < 1) continue;
-            c.s_null = isn; c.slen = slv[isl].slen; c.s_huge = slv[isl].huge; c.s_bos = sbos;
+            c.s_null = isn; c.slen = slv[isl].slen; c.s_huge = slv[isl].huge; c.s_bos = sbos ? 1 : 0;
+            if (sbos == 2 && (c.s_huge || c.slen < 2 || isn || al)) continue;
             c.s_len = 2; c.s_term = 1; c.s_obj = src_str ? 3 : (c.s_huge ? 4 : (c.slen ? (long)c.slen : 1));
             if (src_str && has_l && !c.s_huge && c.slen < 3) c.s_obj = c.slen ? c.slen : 1;
             if (!src_str && c.s_huge == 1) {   /* a counted array declared at the limit really is that large */
                 if (c.slen * f->sunit > DATA) continue;
                 c.s_obj = c.slen;
             }
+            if (sbos == 2) { c.s_obj = c.slen - 1; if (src_str) { c.s_len = c.s_obj - 1; } }      /* one element less than declared; a string source still holds its terminator */
             if (!src_str) { c.s_len = c.s_obj; c.s_term = 0; }
             if ((f->flags & F_SAMELEN) && c.d_huge < 2) { c.s_obj = c.d_obj > 0 ? c.d_obj : 1; c.s_len = c.s_obj; }
             c.o_null = ion; c.c = 'a'; c.k = 1; c.alias = al;
@@ -909,7 +915,9 @@ void gen_prims(int fi) {
     int maxlen = g_tier ? 160 : 72;
     static const long fills[] = { 0x00, 0x5a, 0x80, 0xff, 0x8001, 0x80000001L };
     Case c;
-    for (int len = 0; len <= maxlen; len++) {
+    static const int biglen[] = { 255, 256, 257, 511, 512, 513, 520, 1023, 1024, 1025, 1200, 2047, 2048, 2049, 2400 };   /* byte lengths around 256 and 512 elements of each width: thresholds a block-wise fast path would use */
+    for (int li = 0; li <= maxlen + 15; li++) {
+        int len = li <= maxlen ? li : biglen[li - maxlen - 1];
         if (len % f->w) continue;
         for (int e = 0; e < 8; e++) {                        /* dest start alignment via trailing slack */
             if (e % f->w && f->dunit != 1) continue;
